@@ -35,10 +35,11 @@ def _recurrences():
         excl.append(r + '!3')
         excl.append(r + '!(1,5)')
         excl.append(r + '!P2')
+    excl += ['R1/3!3', 'R1/1!1', 'R1!1', 'R1/5!(5,6)', 'R1//8!8', 'R1/+P2!3']
     return base + excl
 
 
-CONTEXTS = [('1', None), ('1', '10'), ('0', '20'), ('2', '6'), ('5', '9'), ('3', '3')]
+CONTEXTS = [('1', None), ('1', '10'), ('0', '20'), ('2', '6'), ('5', '9'), ('3', '3'), ('9', '5')]
 
 
 def catalog():
@@ -115,6 +116,18 @@ def kf_far_before_start(desc, res):
     try:
         s = _seq_of(desc)
         return bool(s.i_step) and desc['point'] < int(s.p_start) - int(s.i_step)
+    except Exception:
+        return False
+
+
+def kf_before_start_on_seq(desc, res):
+    """get_next_point_on_sequence: point more than one step before the first
+    point, or any point before the point of a one-off sequence."""
+    try:
+        s = _seq_of(desc)
+        if not s.i_step:
+            return desc['point'] < int(s.p_start)
+        return desc['point'] < int(s.p_start) - int(s.i_step)
     except Exception:
         return False
 
